@@ -47,7 +47,9 @@ func (x *Exec) strConcat0(st *State, a, b *Term) *Term {
 		return mkStr(arr, strOff(a), Add(strLen(a), IntLit(int64(len(lb)))))
 	}
 	// general case: fresh string with pointwise definition
-	r := Fresh("cat", arraySort(SInt, SInt))
+	// (a function of the operands, so that the same concatenation written twice - in the code and in a contract -
+	// denotes the same string)
+	r := UF("gs.catarr", arraySort(SInt, SInt), a, b)
 	lenA, lenB := strLen(a), strLen(b)
 	j := BoundVar("j", SInt)
 	x.ctx.assumeGlobal(st, Forall([]*Term{j}, And(
